@@ -1287,3 +1287,155 @@ VARIANTS += [
 			numOfSignatureProcessed++
 ''', why='per-iteration test kept, but the index loop leaves out the last listed manifest of every page'),
 ]
+
+# ---- fourth pass ---------------------------------------------------------------------------------------------
+# class "disjunctive gate computed into a value": the two alternatives of a fail-closed gate are the operands of one `||`
+# whose value is branched on (a tagless `switch` case, a bool local) instead of two branches;
+# class "read-only accessor of the state object": a test on the state struct wrapped in a small method / function.
+
+_LE_OLD = '\tif err != nil && !errors.Is(err, errDoneVerification) {\n\t\tif errors.Is(err, errExceededMaxVerificationLimit) {\n\t\t\treturn ocispec.Descriptor{}, verificationOutcomes, err\n\t\t}\n\t\treturn ocispec.Descriptor{}, nil, err\n\t}\n'
+_LE_SWITCH = '''	switch {
+	case err == nil || errors.Is(err, errDoneVerification):
+		// the listing ran to its end or was stopped by a verified signature
+	case errors.Is(err, errExceededMaxVerificationLimit):
+		return ocispec.Descriptor{}, verificationOutcomes, err
+	default:
+		return ocispec.Descriptor{}, nil, err
+	}
+'''
+_RS_OLD = _OLD_TAIL[_OLD_TAIL.index('\t// If there\'s no signature associated with the reference\n'):]
+_RS_SWITCH = '''	switch {
+	case numOfSignatureProcessed == 0:
+		return ocispec.Descriptor{}, nil, ErrorSignatureRetrievalFailed{Msg: fmt.Sprintf("no signature is associated with %q, make sure the artifact was signed successfully", artifactRef)}
+	case !verificationSucceeded:
+		logger.Debugf("Signature verification failed for all the signatures associated with artifact %v", artifactDescriptor.Digest)
+		return ocispec.Descriptor{}, verificationOutcomes, errors.Join(verificationFailedErrorArray...)
+	default:
+		return artifactDescriptor, verificationOutcomes, nil
+	}
+}
+'''
+
+def _le(name, expect, new, *more, **kw):
+    d = dict(name=name, file=N, expect=expect, edits=[(N, _LE_OLD, new)] + [(N, f, r) for (f, r) in more])
+    d.update(kw)
+    return d
+
+_ACC_FLAG_USE = '\tif !attempts.succeeded {\n'
+_ACC_ANCHOR = '// processPage processes one page of signature manifests listed by the\n'
+
+def _acc(name, expect, use_old, use_new, func, *more, **kw):
+    return _wm(name, expect, (use_old, use_new), (_ACC_ANCHOR, func + '\n' + _ACC_ANCHOR), *more, **kw)
+
+# the success flag of the state object dropped in favour of len(outcomes) > 0
+_NOFLAG = [('\t// at this point, the signature is verified successfully\n\ta.succeeded = true\n\n', ''),
+           ('\t// succeeded tells whether a signature has been verified successfully\n\tsucceeded bool\n\n', '')]
+
+VARIANTS += [
+ _le('shape-listing-error-switch', 'silent', _LE_SWITCH,
+     why='the nested if after the listing as a tagless switch whose first case is the computed disjunction err == nil || errors.Is(err, errDone)'),
+ _le('shape-listing-error-switch-result-switch', 'silent', _LE_SWITCH, (_RS_OLD, _RS_SWITCH)),
+ _le('shape-listing-error-bool-local', 'silent', '''	listed := err == nil || errors.Is(err, errDoneVerification)
+	if !listed {
+		if errors.Is(err, errExceededMaxVerificationLimit) {
+			return ocispec.Descriptor{}, verificationOutcomes, err
+		}
+		return ocispec.Descriptor{}, nil, err
+	}
+'''),
+ _le('shape-listing-error-switch-failures-first', 'silent', '''	switch {
+	case err != nil && !errors.Is(err, errDoneVerification) && errors.Is(err, errExceededMaxVerificationLimit):
+		return ocispec.Descriptor{}, verificationOutcomes, err
+	case err != nil && !errors.Is(err, errDoneVerification):
+		return ocispec.Descriptor{}, nil, err
+	}
+'''),
+ _le('shape-listing-error-switch-negated-local', 'silent', '''	failedListing := !(err == nil || errors.Is(err, errDoneVerification))
+	switch {
+	case failedListing && errors.Is(err, errExceededMaxVerificationLimit):
+		return ocispec.Descriptor{}, verificationOutcomes, err
+	case failedListing:
+		return ocispec.Descriptor{}, nil, err
+	}
+'''),
+ _le('listing-error-switch-default-ignored', 'flagged(result/listing-error)', _LE_SWITCH.replace('\tdefault:\n\t\treturn ocispec.Descriptor{}, nil, err\n', '\tdefault:\n\t\tlogger.Warn(err)\n')),
+ _le('listing-error-switch-disjunction-widened', 'flagged(result/listing-error)', _LE_SWITCH.replace('case err == nil || errors.Is(err, errDoneVerification):', 'case err == nil || errors.Is(err, errDoneVerification) || numOfSignatureProcessed > 0:'),
+     why='one operand of the computed disjunction is no accepted fact: a listing error after the first processed signature is swallowed'),
+ _le('listing-error-switch-conjunction', 'flagged(result/listing-error)', _LE_SWITCH.replace('case err == nil || errors.Is(err, errDoneVerification):', 'case err == nil || !errors.Is(err, errDoneVerification):').replace('case errors.Is(err, errExceededMaxVerificationLimit):', 'case verificationSucceeded && errors.Is(err, errExceededMaxVerificationLimit):')),
+ _le('listing-error-bool-local-widened', 'flagged(result/listing-error)', '''	listed := err == nil || errors.Is(err, errDoneVerification) || errors.Is(err, context.Canceled)
+	if !listed {
+		if errors.Is(err, errExceededMaxVerificationLimit) {
+			return ocispec.Descriptor{}, verificationOutcomes, err
+		}
+		return ocispec.Descriptor{}, nil, err
+	}
+'''),
+ _le('result-switch-flag-case-widened', 'flagged(result/success-exit)', _LE_SWITCH, (_RS_OLD, _RS_SWITCH.replace('case !verificationSucceeded:', 'case !verificationSucceeded && len(verificationFailedErrorArray) > 1:'))),
+ _le('result-switch-success-disjunction', 'flagged(result/success-exit)', _LE_SWITCH, (_RS_OLD, _RS_SWITCH.replace('\tdefault:\n\t\treturn artifactDescriptor', '\tcase verificationSucceeded || len(verificationFailedErrorArray) == 1:\n\t\treturn artifactDescriptor').replace('\tcase !verificationSucceeded:\n', '\tdefault:\n')),
+     why='the success case is a computed disjunction one operand of which is not the success indicator'),
+ _le('shape-result-switch-success-disjunction-of-indicators', 'silent', _LE_SWITCH, (_RS_OLD, _RS_SWITCH.replace('\tdefault:\n\t\treturn artifactDescriptor', '\tcase verificationSucceeded || verificationSucceeded && len(verificationOutcomes) == 1:\n\t\treturn artifactDescriptor').replace('\tcase !verificationSucceeded:\n', '\tdefault:\n')),
+     why='the success case is a computed disjunction every operand of which needs the success flag'),
+
+ # accessors
+ _acc('shape-accessor-flag', 'silent', _ACC_FLAG_USE, '\tif !attempts.verified() {\n',
+      '// verified reports whether a signature has been verified successfully.\nfunc (a *signatureAttempts) verified() bool {\n\treturn a.succeeded\n}\n'),
+ _acc('shape-accessor-outcomes-len', 'silent', _ACC_FLAG_USE, '\tif !attempts.verified() {\n',
+      'func (a *signatureAttempts) verified() bool {\n\treturn len(a.outcomes) > 0\n}\n', *_NOFLAG,
+      why='the held-out refactoring: flag eliminated, len(outcomes) > 0 read through an accessor method'),
+ _acc('shape-accessor-outcomes-nil-function', 'silent', _ACC_FLAG_USE, '\tif !anyVerified(ctx, attempts) {\n',
+      'func anyVerified(_ context.Context, a *signatureAttempts) bool {\n\treturn a.outcomes != nil\n}\n', *_NOFLAG),
+ _acc('shape-accessor-processed', 'silent', '\tif attempts.processed == 0 {\n', '\tif attempts.untouched() {\n',
+      'func (a *signatureAttempts) untouched() bool {\n\treturn a.processed == 0\n}\n'),
+ _acc('shape-accessor-both-guard-clauses', 'silent', _ACC_FLAG_USE, '\tif !attempts.verified() {\n',
+      'func (a *signatureAttempts) verified() bool {\n\tif a.processed == 0 {\n\t\treturn false\n\t}\n\treturn len(a.outcomes) > 0\n}\n', *_NOFLAG),
+ _acc('accessor-widened', 'flagged(result/success-exit)', _ACC_FLAG_USE, '\tif !attempts.verified() {\n',
+      'func (a *signatureAttempts) verified() bool {\n\treturn len(a.outcomes) > 0 || len(a.failures) > 1\n}\n', *_NOFLAG),
+ _acc('accessor-true-on-a-path', 'flagged(result/success-exit)', _ACC_FLAG_USE, '\tif !attempts.verified() {\n',
+      'func (a *signatureAttempts) verified() bool {\n\tif a.processed >= a.maxAttempts {\n\t\treturn true\n\t}\n\treturn len(a.outcomes) > 0\n}\n', *_NOFLAG),
+ _acc('accessor-other-field', 'flagged(result/success-exit)', _ACC_FLAG_USE, '\tif !attempts.verified() {\n',
+      'func (a *signatureAttempts) verified() bool {\n\treturn len(a.failures) > 0\n}\n', *_NOFLAG),
+ _acc('accessor-negated', 'flagged(result/success-exit)', _ACC_FLAG_USE, '\tif attempts.verified() {\n',
+      'func (a *signatureAttempts) verified() bool {\n\treturn len(a.outcomes) > 0\n}\n', *_NOFLAG),
+ _acc('accessor-processed-inverted', 'flagged(result/success-exit)', '\tif attempts.processed == 0 {\n', '\tif attempts.untouched() {\n',
+      'func (a *signatureAttempts) untouched() bool {\n\treturn a.processed != 0\n}\n'),
+ _acc('accessor-writes', 'flagged(callback/state-object)', _ACC_FLAG_USE, '\tif !attempts.verified() {\n',
+      'func (a *signatureAttempts) verified() bool {\n\ta.processed = 0\n\treturn len(a.outcomes) > 0\n}\n', *_NOFLAG,
+      why='a function that is handed the state object and stores through it is no read-only accessor'),
+ _acc('accessor-leaks-object', 'flagged(callback/state-object)', _ACC_FLAG_USE, '\tif !attempts.verified() {\n',
+      'var lastAttempts *signatureAttempts\n\nfunc (a *signatureAttempts) verified() bool {\n\tlastAttempts = a\n\treturn len(a.outcomes) > 0\n}\n', *_NOFLAG),
+ _acc('accessor-hands-out-field-address', 'flagged(callback/state-object)', _ACC_FLAG_USE, '\tif !attempts.verified() {\n',
+      'func (a *signatureAttempts) verified() bool {\n\tbump(&a.processed)\n\treturn len(a.outcomes) > 0\n}\n\nfunc bump(n *int) { *n = 0 }\n', *_NOFLAG),
+]
+
+# the per-iteration limit test made by a read-only accessor of the state object
+_ACC_GUARD_OLD = '\tfor _, sigManifestDesc := range signatureManifests {\n\t\tif a.processed >= a.maxAttempts {\n\t\t\tbreak\n\t\t}\n'
+_ACC_GUARD_NEW = '\tfor _, sigManifestDesc := range signatureManifests {\n\t\tif a.exhausted() {\n\t\t\tbreak\n\t\t}\n'
+_ACC_AFTER = ('\t}\n\tif a.processed >= a.maxAttempts {\n\t\treturn a.errLimitExceeded\n\t}\n', '\t}\n\tif a.exhausted() {\n\t\treturn a.errLimitExceeded\n\t}\n')
+
+VARIANTS += [
+ _acc('shape-accessor-limit-guard', 'silent', _ACC_GUARD_OLD, _ACC_GUARD_NEW,
+      'func (a *signatureAttempts) exhausted() bool {\n\treturn a.processed >= a.maxAttempts\n}\n', _ACC_AFTER),
+ _acc('shape-accessor-limit-guard-positive', 'silent', _ACC_GUARD_OLD, _ACC_GUARD_NEW.replace('a.exhausted()', '!a.mayAttempt()'),
+      'func (a *signatureAttempts) mayAttempt() bool {\n\tif a.processed < a.maxAttempts {\n\t\treturn true\n\t}\n\treturn false\n}\n'),
+ _acc('accessor-limit-guard-off-by-one', 'flagged(bound/guard)', _ACC_GUARD_OLD, _ACC_GUARD_NEW,
+      'func (a *signatureAttempts) exhausted() bool {\n\treturn a.processed > a.maxAttempts\n}\n', _ACC_AFTER),
+ _acc('accessor-limit-guard-other-limit', 'flagged(bound/guard)', _ACC_GUARD_OLD, _ACC_GUARD_NEW,
+      'func (a *signatureAttempts) exhausted() bool {\n\treturn a.processed >= 2*a.maxAttempts\n}\n', _ACC_AFTER),
+ _acc('accessor-limit-guard-conjunction', 'flagged(bound/guard)', _ACC_GUARD_OLD, _ACC_GUARD_NEW,
+      'func (a *signatureAttempts) exhausted() bool {\n\treturn a.processed >= a.maxAttempts && len(a.failures) > 1\n}\n', _ACC_AFTER,
+      why='the accessor can answer false although the limit is reached'),
+ _acc('accessor-limit-guard-before-loop-only', 'flagged(bound/guard)', _ACC_GUARD_OLD, '\tif a.exhausted() {\n\t\treturn a.errLimitExceeded\n\t}\n\tfor _, sigManifestDesc := range signatureManifests {\n',
+      'func (a *signatureAttempts) exhausted() bool {\n\treturn a.processed >= a.maxAttempts\n}\n'),
+]
+
+VARIANTS += [
+ _acc('accessor-limit-guard-positive-off-by-one', 'flagged(bound/guard)', _ACC_GUARD_OLD, _ACC_GUARD_NEW.replace('a.exhausted()', '!a.mayAttempt()'),
+      'func (a *signatureAttempts) mayAttempt() bool {\n\tif a.processed <= a.maxAttempts {\n\t\treturn true\n\t}\n\treturn false\n}\n'),
+ _acc('accessor-limit-guard-positive-extra-way', 'flagged(bound/guard)', _ACC_GUARD_OLD, _ACC_GUARD_NEW.replace('a.exhausted()', '!a.mayAttempt()'),
+      'func (a *signatureAttempts) mayAttempt() bool {\n\tif a.processed < a.maxAttempts {\n\t\treturn true\n\t}\n\treturn len(a.failures) == 1\n}\n',
+      why='one return of the accessor answers true without the limit test'),
+ _acc('shape-accessor-flag-if-return', 'silent', _ACC_FLAG_USE, '\tif !attempts.verified() {\n',
+      'func (a *signatureAttempts) verified() bool {\n\tif a.outcomes == nil {\n\t\treturn false\n\t}\n\treturn true\n}\n', *_NOFLAG),
+ _acc('accessor-flag-if-return-inverted', 'flagged(result/success-exit)', _ACC_FLAG_USE, '\tif !attempts.verified() {\n',
+      'func (a *signatureAttempts) verified() bool {\n\tif a.outcomes != nil {\n\t\treturn false\n\t}\n\treturn true\n}\n', *_NOFLAG),
+]
